@@ -111,6 +111,9 @@ def pool():
     # turns on the spot: consecutive states share the position, the occupied lanelets change with the orientation only
     dyn("d-rect-turn", rect, [(2.0, 0.5, 0.0), (4.0, 0.5, 0.0), (4.0, 0.5, math.pi / 2), (4.0, 0.5, 0.0), (4.0, 0.5, 1.2)])
     dyn("d-offcentre-traj", ["rect", 1.0, 1.0, 0.0, 2.0, 0.0], [(2.0, 1.0, 0.0), (5.0, 1.0, 0.0), (7.0, 1.0, 0.0)])
+    # the prediction carries its own shape (larger than the obstacle's shape): the occupancy at predicted steps is the prediction's shape
+    dyn("d-two-shapes", small, [(2.0, 1.0, 0.0), (4.0, 1.5, 0.0), (6.0, 1.0, 0.0)])
+    P["d-two-shapes"]["prediction"]["shape"] = ["rect", 4.0, 2.0, 0.0, 0.0, 0.0]
     dyn("d-rect-noprediction", rect, [(4.0, 2.0, 0.3)])
     dyn("d-circle-noprediction", circ, [(4.0, 1.0, 0.0)], t0=1)
     return P
@@ -137,7 +140,8 @@ def expected_assignment(osp, ids):
     out = {}
     for t in horizon(osp):
         x, y, th = pose_at(osp, t)
-        hit, und = shape_hits(placed(osp["shape"], x, y, th), ids)
+        shp = osp["shape"] if (t == osp["initial_state"]["attrs"]["time_step"] or osp["role"] == "static") else osp["prediction"].get("shape", osp["shape"])
+        hit, und = shape_hits(placed(shp, x, y, th), ids)
         out[t] = (netgeo.lanelets_at((x, y), ids), hit, und)
     return out
 
@@ -237,8 +241,8 @@ def run_inputs(ids, onames, route, res, tmpdir):
     from commonroad.common.file_reader import CommonRoadFileReader
     from commonroad.common.util import FileFormat
     case = {"k": "inputs", "ids": ids, "obstacles": list(onames), "route": route}
-    if route == "xml" and "d-offcentre-traj" in onames:
-        res.guarded += 1        # the 2020a XML format stores the shape of a dynamic obstacle without a centre: an off-centre one is not expressible
+    if route == "xml" and ("d-offcentre-traj" in onames or "d-two-shapes" in onames):
+        res.guarded += 1        # the 2020a XML format stores ONE shape per dynamic obstacle, without a centre: off-centre / two-shape obstacles are not expressible
         return
     sp = scenario_spec(ids, onames)
     P = {n: o for n, o in zip(onames, sp["obstacles"])}
@@ -246,6 +250,15 @@ def run_inputs(ids, onames, route, res, tmpdir):
     try:
         sc, pps = spec.build(sp)
         if route == "assign":
+            sc.assign_obstacles_to_lanelets()
+        elif route == "shift-then-assign":
+            # the whole scenario is moved by a pure translation first (lookups were made before, so every derived structure exists): lanelets and
+            # obstacles move together, the assignment is the one of the unmoved scenario
+            import numpy as np
+            sc.lanelet_network.find_lanelet_by_position([np.array([1.0, 1.0])])
+            for l_ in sc.lanelet_network.lanelets:
+                _ = l_.polygon
+            sc.translate_rotate(np.array([16.0, -8.0]), 0.0)
             sc.assign_obstacles_to_lanelets()
         else:
             ff = FileFormat.XML if route == "xml" else FileFormat.PROTOBUF
@@ -439,7 +452,7 @@ def units(tier):
     names = sorted(pool())
     u = []
     for ni, ids in enumerate(NETWORKS):
-        for r in ("assign", "xml", "pb"):
+        for r in ("assign", "xml", "pb", "shift-then-assign"):
             for n in names:
                 u.append({"k": "inputs", "ids": ids, "obstacles": [n], "route": r})
         pairs = list(itertools.combinations(names, 2))
